@@ -9,6 +9,17 @@ claimed = {
          "Exploration: every Compare call on generated pools is observed and the total-preorder laws are decided on the complete matrix of each pool; holds only for the pools produced.",
          "Trusts the pool generators' reach (clusters, boundary numbers, respellings) and Go's sort; alpm pools split by pkgrel presence as the property allows.", "5/C01"),
 }
+REFTXT = "Exploration: every ordered pair of generated in-domain pools is compared by the real Compare and by an independent executable reference model written from the upstream definition; disagreement on any observed pair is a violation with the deciding clause named."
+for i, (what, note) in {
+ "C08": ("SemVer 2.0.0 section 11 (ref/semver.go)", "Model calibrated against node-semver (0 disagreements on 178k pairs); identifiers up to 18 digits; NuGet single-case."),
+ "C09": ("PEP 440 / packaging._cmpkey (ref/pep440.go)", "Model calibrated against packaging 26.3 (0 disagreements on 600k pairs)."),
+ "C10": ("dpkg verrevcmp (ref/dpkg.go)", "Model calibrated against /usr/bin/dpkg --compare-versions (0 disagreements); domain = dpkg-valid strings."),
+ "C11": ("rpmvercmp (ref/rpm.go)", "No rpm binary in the image; model anchored on rpm's own rpmvercmp.at vectors."),
+ "C12": ("Maven ComparableVersion 3.8 (ref/maven.go)", "Model calibrated against maven-artifact 3.8.7 (0 disagreements on 600k pairs); domain = conventional shapes only."),
+ "C13": ("Gem::Version (ref/gem.go)", "No ruby in the image; model anchored on rubygems' test vectors; single-case letters only."),
+ "C14": ("apk-tools order per the property's sentence (ref/apk.go)", "Unclaimed where apk-tools 2.12's token machine (transcribed, reproduces compare.txt) disagrees with the sentence."),
+}.items():
+    claimed[i] = ("reference-model monitor: real Compare vs " + what + " on generated pools (runtime monitoring)", REFTXT, note, "5/" + i)
 pending = {}
 props = [json.loads(l) for l in open(os.path.join(V, "properties.jsonl"))]
 checks, na = [], []
